@@ -8,17 +8,29 @@ import (
 )
 
 type CliCase struct {
-	Op      string `json:"op"`
-	Id      int    `json:"id"`
-	Sub     string `json:"sub"`
-	Prior   string `json:"prior"`
-	ToFile  bool   `json:"toFile"`
-	Kind    string `json:"kind"`
+	Op     string `json:"op"`
+	Id     int    `json:"id"`
+	Sub    string `json:"sub"`
+	Prior  string `json:"prior"`
+	ToFile bool   `json:"toFile"`
+	Kind   string `json:"kind"`
 	// an operational failure the command line must report (non-zero exit, nothing on stdout): "no-profile-file", "no-data-file",
 	// "out-dir-missing" (the output path lies in a directory that does not exist), "no-args"
-	Fault   string `json:"fault,omitempty"`
+	Fault string `json:"fault,omitempty"`
+	// how the files are named: "" (p.yaml, d.jsonld, out.json), "dollar" (names containing $VAR / ${VAR} with VAR set in the
+	// command's environment), "spaces" (blanks and non-ASCII letters).  A file name is a file name
+	Names   string `json:"names,omitempty"`
 	Profile string `json:"profile"`
 	Data    string `json:"data"`
+}
+
+func pvText(name string) string {
+	for _, pv := range profVariants {
+		if pv.name == name {
+			return pv.text
+		}
+	}
+	panic("no profile variant " + name)
 }
 
 func genCli(g *G, n int, out io.Writer) {
@@ -76,6 +88,8 @@ func genCli(g *G, n int, out io.Writer) {
 	bad := []pd{
 		{"bad-profile", "profile: [", okData},
 		{"bad-profile-prefix", profVariants[9].text, okData},
+		{"bad-rego", pvText("rego-syntax"), okData},                 // the translator accepts it, the engine does not
+		{"bad-rego-builtin", pvText("rego-unsafe-builtin"), okData}, // likewise (rejected by the capability check)
 		{"bad-data", okProfile, "{ not json"},
 		{"bad-data-jsonld", okProfile, `{"@id":"http://a","@type":5}`},
 	}
@@ -86,6 +100,21 @@ func genCli(g *G, n int, out io.Writer) {
 		}
 		emit("generate", "", false, in.kind, in.p, in.d)
 		emit("normalize", "", false, in.kind, in.p, in.d)
+	}
+	// where the report goes: a symbolic link (to nothing yet / to an existing longer file), the data file itself
+	for _, in := range inputs[:2] {
+		for _, prior := range []string{"symlink-dangling", "symlink-existing", "is-data-file"} {
+			emit("validate", prior, true, in.kind, in.p, in.d)
+		}
+	}
+	// how the files are called
+	for _, names := range []string{"dollar", "spaces"} {
+		for _, sub := range []string{"validate", "generate", "normalize", "compile"} {
+			enc.Encode(CliCase{Op: "cli", Id: id, Sub: sub, Kind: "names:" + names, Names: names, Profile: okProfile, Data: okData})
+			id++
+		}
+		enc.Encode(CliCase{Op: "cli", Id: id, Sub: "validate", ToFile: true, Prior: "longer", Kind: "names:" + names, Names: names, Profile: okProfile, Data: okData})
+		id++
 	}
 	emit("validate", "big", true, "violations", okProfile, okData)
 	emit("compile", "", false, "conforming", okProfile, "[]")
